@@ -238,6 +238,13 @@ func (f *RunningEventFilter) onReorg(writer db.KeyValueWriter) error {
 		return err
 	}
 
+	// A snapshot persisted before this reorg still holds the reverted block's bloom. If the node
+	// later stops without persisting a new snapshot, the old one would look caught up
+	// (next == latest+1) and be trusted. Drop it with the revert; it is rebuilt on the next start.
+	if err := DeleteRunningEventFilter(writer); err != nil {
+		return fmt.Errorf("deleting persisted running event filter: %w", err)
+	}
+
 	currRangeStart := f.inner.FromBlock()
 	curBlock := f.next - 1
 	// Falls into previous filter's range
